@@ -370,20 +370,22 @@ Definition hexlike (x : bytes) : bool :=
 Record fixes := { fx_witver : bool;      (* fixes/C05-1: witness version reaches the script *)
                   fx_netobj : bool;      (* fixes/C05-2: Address/HDKey object of another network refused *)
                   fx_p2shobj : bool;     (* fixes/C05-3: p2sh-segwit Address object locks to its P2SH script *)
+                  fx_addrpk : bool;      (* fixes/C05-4: an address given together with a public key is examined *)
                   fx_tb : bytes -> bytes (* what happens to a binary hash / script / key argument on its way in:
                                             [lib_to_bytes] = the code as it is (known class ascii_hex_payload),
                                             the identity = binary arguments are taken as they are *) }.
 Definition fx_orig : fixes :=
-  {| fx_witver := false; fx_netobj := false; fx_p2shobj := false; fx_tb := lib_to_bytes |}.
+  {| fx_witver := false; fx_netobj := false; fx_p2shobj := false; fx_addrpk := false; fx_tb := lib_to_bytes |}.
 Definition fx_all : fixes :=
-  {| fx_witver := true; fx_netobj := true; fx_p2shobj := true; fx_tb := fun x => x |}.
-(* the tree as it stands (the three repairs are in, to_bytes is as it was) *)
+  {| fx_witver := true; fx_netobj := true; fx_p2shobj := true; fx_addrpk := true; fx_tb := fun x => x |}.
+(* the tree as it stands (the three repairs are in; address + public key and to_bytes are as they were) *)
 Definition fx_now : fixes :=
-  {| fx_witver := true; fx_netobj := true; fx_p2shobj := true; fx_tb := lib_to_bytes |}.
+  {| fx_witver := true; fx_netobj := true; fx_p2shobj := true; fx_addrpk := false; fx_tb := lib_to_bytes |}.
 
 (* the same repairs, binary arguments taken as they are *)
 Definition fxi (fx : fixes) : fixes :=
-  {| fx_witver := fx_witver fx; fx_netobj := fx_netobj fx; fx_p2shobj := fx_p2shobj fx; fx_tb := fun x => x |}.
+  {| fx_witver := fx_witver fx; fx_netobj := fx_netobj fx; fx_p2shobj := fx_p2shobj fx; fx_addrpk := fx_addrpk fx;
+     fx_tb := fun x => x |}.
 
 (* "if not string: return b''" comes first, whatever the rest does *)
 Definition tb (fx : fixes) (x : bytes) : bytes := match x with [] => [] | _ => fx_tb fx x end.
@@ -696,17 +698,22 @@ Definition lib_output_core (fx : fixes) (a : oargs) (sr : sres) : ores :=
   let h2 := if has_script then shash else h1 in
   let wv2 := if has_script && oseq st2 s_p2tr
              then match items with IOp b :: _ => bz b - 80 | _ => wv1 end else wv1 in
-  (* public key / address string *)
+  (* public key / address string:
+       if self.public_key and not self.public_hash:  self.public_hash = hash160(self.public_key)
+       elif self._address and (not self.public_hash or not self.script_type or not self.encoding):  <examine the address>
+     the code as it is never looks at an address that comes together with a public key (its type, its hash and its
+     network are ignored: known class / fixes/C05-4, where "elif" becomes "if") *)
+  let from_key := match pubkey, h2 with _ :: _, [] => true | _, _ => false end in
+  let h2k := if from_key then H160 pubkey else h2 in
   let need_deser := match given with
-                    | Some _ => match h2, st2, e1 with
-                                | [], _, _ | _, None, _ | _, _, None => true
+                    | Some _ => match st2, e1, h2k with
+                                | None, _, _ | _, None, _ | _, _, [] => true
                                 | _, _, _ => false
                                 end
                     | None => false
                     end in
-  match (match pubkey, h2 with
-         | _ :: _, [] => Some (st2, H160 pubkey, wv2, e1, wt1)
-         | _, _ =>
+  match (if from_key && negb (fx_addrpk fx) then Some (st2, h2k, wv2, e1, wt1)
+         else
              if need_deser then
                match given with
                | Some d =>
@@ -730,8 +737,7 @@ Definition lib_output_core (fx : fixes) (a : oargs) (sr : sres) : ores :=
                    end
                | None => None
                end
-             else Some (st2, h2, wv2, e1, wt1)
-         end) with
+             else Some (st2, h2k, wv2, e1, wt1)) with
   | None => RErr
   | Some (st3, h3, wv3, e3, wt3) =>
   let e4 := match e3 with
@@ -811,6 +817,11 @@ Definition tb_leaves (fx : fixes) (l : list bytes) : Prop :=
   (forall x, fx_tb fx x = x) \/ (fx_tb fx = lib_to_bytes /\ forallb (fun x => negb (hexlike x)) l = true).
 
 (* ---------- named creation paths (what the theorems and the driver use) ---------- *)
+(* Output(address=<string>, public_key=pub) *)
+Definition lib_out_addr_pubkey fx net (a : daddr) (pub : bytes) : ores :=
+  lib_output fx {| a_addr := AaStr a; a_hash := []; a_pubkey := pub; a_lock := []; a_stype := None;
+                   a_witver := 0; a_enc := None; a_net := net |}.
+
 Definition args0 (net : network) : oargs :=
   {| a_addr := AaNone; a_hash := []; a_pubkey := []; a_lock := []; a_stype := None; a_witver := 0;
      a_enc := None; a_net := net |}.
